@@ -1249,10 +1249,10 @@ def agg_levels(draw, kind):
 
 
 @st.composite
-def rounds_case(draw, tier):
-  kind = draw(st.sampled_from(['uniform', 'uniform', 'uniform', 'uniform', 'arith', 'rotated',
-                               'rotated', 'rotated', 'drive', 'drive', 'drive', 'terngrad',
-                               'terngrad', 'terngrad']))
+def rounds_case(draw, tier, kinds=None):
+  kind = draw(st.sampled_from(kinds or [
+      'uniform', 'uniform', 'uniform', 'uniform', 'arith', 'rotated', 'rotated', 'rotated',
+      'drive', 'drive', 'drive', 'terngrad', 'terngrad', 'terngrad']))
   levels = agg_levels(draw, kind)
   menu = ['two', 'nested', 'two', 'nested', 'vec3', 'p64']
   if tier == 'thorough':
@@ -1450,8 +1450,16 @@ def run_binary_low_precision(case):
   Chernoff bounds at 1e-17."""
   dt = {'bfloat16': jnp.bfloat16, 'float16': jnp.float16, 'float32': jnp.float32}[case['dtype']]
   n, k, j = case['n'], case['K'], case['j']
-  lo, hi = 0.0, 2.0 ** case['e']
-  x = hi * 2.0 ** -j
+  if case.get('offset'):
+    # the same relative position on top of a large offset: lo = 2^E, the spread
+    # hi - lo is 2^j ulps of lo and x sits one ulp above lo (all exact in
+    # float32; thresholds formed near lo would be rounded to that ulp grid)
+    lo = 2.0 ** (case['e'] + 24)
+    ulp = lo * 2.0 ** -23
+    hi, x = lo + ulp * 2.0 ** j, lo + ulp
+  else:
+    lo, hi = 0.0, 2.0 ** case['e']
+    x = hi * 2.0 ** -j
   v = jnp.asarray([lo, hi] + [x] * (n - 2), dtype=dt)
   require(float(v[2]) == x, 'harness:position_not_representable', f'{x!r} in {case["dtype"]}')
   keys = keys_from(case['seed'], k)
@@ -1475,10 +1483,47 @@ def run_binary_low_precision(case):
 
 @st.composite
 def binary_low_precision_case(draw, tier):
+  if draw(st.integers(0, 2)) == 0:
+    return {'dtype': 'float32', 'offset': True, 'j': draw(st.sampled_from([2, 3, 5, 1])),
+            'e': draw(st.integers(-6, 6)), 'n': 258, 'K': 2000 if tier == 'quick' else 8000,
+            'seed': draw(SEEDS)}
   dtype = draw(st.sampled_from(['bfloat16', 'float16', 'float32', 'bfloat16', 'float16']))
   return {'dtype': dtype, 'j': draw(st.sampled_from([9, 11] if dtype != 'bfloat16' else [9, 11, 7])),
           'e': draw(st.integers(-6, 6)), 'n': 258, 'K': 2000 if tier == 'quick' else 8000,
           'seed': draw(SEEDS)}
+
+
+# ---------------------------------------------------- other random-bit layout
+
+def child_rounds_batch(cases):
+  """Runs in a child interpreter started with JAX_THREEFRY_PARTITIONABLE=0."""
+  assert not jax.config.jax_threefry_partitionable
+  for i, case in enumerate(cases):
+    try:
+      run_rounds(case)
+    except Violation as v:
+      return {'clause': v.clause, 'message': f'case {i}: {v.message}'}
+  return {}
+
+
+def run_rounds_legacy_rng(case):
+  """aggregator_rounds for the rotating aggregators under the other documented
+  layout of JAX's random bits (jax_threefry_partitionable=False): draws of
+  different lengths from one key share no prefix there, so encoding and decoding
+  must derive their signs in the same way."""
+  from vf import child
+  child.call('vf.props.c11', 'child_rounds_batch', case['cases'],
+             {'JAX_THREEFRY_PARTITIONABLE': '0'}, 'legacy_rng')
+  return []
+
+
+@st.composite
+def legacy_rng_case(draw, tier):
+  return {'cases': [draw(rounds_case(tier, kinds=['rotated', 'drive'])) for _ in range(3)]}
+
+
+def legacy_rng_labels(case):
+  return sorted({l for c in case['cases'] for l in rounds_labels(c)})
 
 
 CHECKS = [
@@ -1515,12 +1560,14 @@ CHECKS = [
               'unbiased for the clipped input'),
     Check(name='binary_low_precision_inputs', run=run_binary_low_precision,
           strategy=binary_low_precision_case,
-          labels=lambda c: ['dtype:' + c['dtype'], 'position:2^-%d' % c['j']],
-          nontrivial=lambda c, ls: c['dtype'] != 'float32',
+          labels=lambda c: ['dtype:' + c['dtype'], 'position:2^-%d' % c['j']] +
+          (['spread_of_few_ulps_on_a_large_offset'] if c.get('offset') else []),
+          nontrivial=lambda c, ls: c['dtype'] != 'float32' or bool(c.get('offset')),
           budget={'quick': 48, 'thorough': 480}, time_share=0.6,
           doc='binary quantizer on bfloat16 / float16 / float32 vectors: a coordinate '
               'at relative position 2^-j rounds up with probability 2^-j (pooled '
-              'binomial test over keys x equal coordinates, Chernoff bounds at 1e-17)'),
+              'binomial test over keys x equal coordinates, Chernoff bounds at 1e-17); '
+              'also float32 vectors whose spread is 2^j ulps of a large offset'),
     Check(name='terngrad_quantize', run=run_terngrad,
           strategy=lambda tier: q_case(tier, 'terngrad'),
           labels=q_labels, nontrivial=q_nontrivial,
@@ -1539,6 +1586,13 @@ CHECKS = [
               'hull for TernGrad; zero and constant leaves; zero total weight -> '
               'zeros; invariance to scaling all weights; finite; inputs and input '
               'state unharmed; state.rng advances; num_bits increment == formula'),
+    Check(name='aggregator_rounds_legacy_rng', run=run_rounds_legacy_rng,
+          strategy=legacy_rng_case, labels=legacy_rng_labels,
+          nontrivial=lambda c, ls: any(rounds_nontrivial(x, rounds_labels(x)) for x in c['cases']),
+          budget={'quick': 32, 'thorough': 480}, time_share=1.0,
+          doc='three aggregator_rounds histories of the rotated / DRIVE aggregators per '
+              'child interpreter started with JAX_THREEFRY_PARTITIONABLE=0: every clause '
+              'of aggregator_rounds'),
     Check(name='aggregator_unbiased', run=run_agg_unbiased, strategy=agg_unbiased_case,
           labels=agg_unbiased_labels,
           nontrivial=lambda c, ls: len(c['clients']) >= 2,
